@@ -2,6 +2,7 @@ package props
 
 import (
 	"bytes"
+	"encoding/binary"
 	"fmt"
 	"math"
 	"path/filepath"
@@ -11,6 +12,7 @@ import (
 	"github.com/scigolib/hdf5/internal/core"
 	"github.com/scigolib/hdf5/internal/writer"
 	"github.com/scigolib/hdf5/internal/zzverif/ev"
+	"github.com/scigolib/hdf5/internal/zzverif/hx"
 )
 
 // C08 — filter pipelines are lossless, self-compatible and detect corruption.
@@ -252,6 +254,29 @@ func c08Run(c *ev.Ctx) {
 			} else if !bytes.Equal(rdec, x) {
 				fail("reader-decode:bytes:"+c08ReaderCulprit(fs, x), map[string]any{"len": n, "kind": kind, "first_diff": firstDiff(rdec, x), "got_len": len(rdec), "pipeline_sig": sig})
 			}
+			// (2b) the next chunk through the same filter objects is a near-copy of this one:
+			// same length and the same additive checksums (Adler-32 / Fletcher-32 / byte sum are
+			// blind to +1,-2,+1 on three neighbours), an exact copy, and a one-byte change.
+			// Whatever a stage remembers from the previous chunk must not leak into the next.
+			for _, sib := range c08Siblings(r, x) {
+				c.Evals(1)
+				c.Count("sibling_chunks_encoded", 1)
+				senc, err := pl.Apply(sib.data)
+				if err != nil {
+					if strings.Contains(sig, "shuffle") {
+						c.Count("apply-refused(shuffle length)", 1)
+						continue
+					}
+					fail("sibling:apply-refused:"+sig, map[string]any{"len": n, "sibling": sib.name, "err": err.Error()})
+					continue
+				}
+				if sdec, err := pl.Remove(senc); err != nil || !bytes.Equal(sdec, sib.data) {
+					fail("sibling:self-inverse:"+sib.name+":"+sig, map[string]any{"len": n, "kind": kind, "err": fmt.Sprint(err), "first_diff": firstDiff(sdec, sib.data), "decodes_to_previous_chunk": bytes.Equal(sdec, x)})
+				}
+				if sdec, err := rp.ApplyFilters(senc); err != nil || !bytes.Equal(sdec, sib.data) {
+					fail("sibling:reader-decode:"+sib.name+":"+c08ReaderCulprit(fs, sib.data), map[string]any{"len": n, "kind": kind, "err": fmt.Sprint(err), "first_diff": firstDiff(sdec, sib.data), "decodes_to_previous_chunk": bytes.Equal(sdec, x), "pipeline_sig": sig})
+				}
+			}
 			// (3) corruption of a Fletcher-32 protected chunk: the checksum is verified on
 			// the stored bytes only when fletcher32 is the LAST stage of the pipeline
 			if order[len(order)-1] == "fletcher32" && len(enc) > 0 {
@@ -319,6 +344,57 @@ func c08Run(c *ev.Ctx) {
 	if c.Index < 3 {
 		c.Sample(map[string]any{"pipeline": fmt.Sprint(specs), "payload_sizes": sizes, "payload_kinds": "zeros, ramp, random, text, float-like, periodic (random block repeated with period 1..8194, thorough ..32769)"})
 	}
+}
+
+type c08Sibling struct {
+	name string
+	data []byte
+}
+
+// c08Siblings returns near-copies of x of the same length (see the caller).
+func c08Siblings(r *ev.Rand, x []byte) []c08Sibling {
+	var out []c08Sibling
+	if len(x) < 8 {
+		return nil
+	}
+	// bytes +1,-2,+1 (or -1,+2,-1): byte sum and position-weighted byte sum unchanged
+	for try := 0; try < 40; try++ {
+		i := r.Intn(len(x) - 2)
+		y := append([]byte(nil), x...)
+		switch {
+		case y[i] < 255 && y[i+1] >= 2 && y[i+2] < 255:
+			y[i]++
+			y[i+1] -= 2
+			y[i+2]++
+		case y[i] > 0 && y[i+1] <= 253 && y[i+2] > 0:
+			y[i]--
+			y[i+1] += 2
+			y[i+2]--
+		default:
+			continue
+		}
+		out = append(out, c08Sibling{"same-adler32", y})
+		break
+	}
+	// the same on 16-bit little-endian words (Fletcher-32 sums)
+	for try := 0; try < 40; try++ {
+		i := 2 * r.Intn((len(x)-4)/2)
+		y := append([]byte(nil), x...)
+		w := func(k int) uint16 { return uint16(y[i+2*k]) | uint16(y[i+2*k+1])<<8 }
+		put := func(k int, v uint16) { y[i+2*k], y[i+2*k+1] = byte(v), byte(v>>8) }
+		if w(0) < 0xfffe && w(1) >= 2 && w(1) < 0xfffe && w(2) < 0xfffe {
+			put(0, w(0)+1)
+			put(1, w(1)-2)
+			put(2, w(2)+1)
+			out = append(out, c08Sibling{"same-fletcher32", y})
+			break
+		}
+	}
+	out = append(out, c08Sibling{"identical", append([]byte(nil), x...)})
+	y := append([]byte(nil), x...)
+	y[r.Intn(len(y))] ^= 0x10
+	out = append(out, c08Sibling{"one-byte-differs", y})
+	return out
 }
 
 // c08FletcherBlind reports whether two stored chunks differ only by 16-bit words 0x0000 <-> 0xFFFF
@@ -451,8 +527,9 @@ func c08EndToEnd(c *ev.Ctx) {
 				data[i] = math.Float64frombits(r.Float64Bits())
 			}
 		}
-		want = data
+		want = append([]float64(nil), data...)
 		werr = ds.Write(data)
+		hx.Poison(data)
 	} else {
 		ds, err := fw.CreateDataset("/d", hdf5.Int32, []uint64{n}, opts...)
 		if err != nil {
@@ -467,9 +544,29 @@ func c08EndToEnd(c *ev.Ctx) {
 			if r.Bool() {
 				data[i] = int32(i)
 			}
+		}
+		if r.Chance(1, 3) && chunk >= 2 && chunk < n {
+			// consecutive chunks that are near-copies of each other (same length, same
+			// additive checksums, or identical)
+			prev := make([]byte, 4*chunk)
+			for i := uint64(0); i < chunk; i++ {
+				binary.LittleEndian.PutUint32(prev[4*i:], uint32(data[i]))
+			}
+			for lo := chunk; lo < n; lo += chunk {
+				sibs := c08Siblings(r, prev)
+				cur := sibs[r.Intn(len(sibs))].data
+				for i := uint64(0); i < chunk && lo+i < n; i++ {
+					data[lo+i] = int32(binary.LittleEndian.Uint32(cur[4*i:]))
+				}
+				prev = cur
+			}
+			c.Count("e2e_datasets_with_near-copy_chunks", 1)
+		}
+		for i := range data {
 			want[i] = float64(data[i])
 		}
 		werr = ds.Write(data)
+		hx.Poison(data)
 	}
 	if werr != nil {
 		_ = fw.Close()
@@ -520,8 +617,8 @@ func c08EndToEnd(c *ev.Ctx) {
 var C08 = &ev.Property{
 	ID:    "C08",
 	Level: "exploration",
-	Rule: "package level: every ordered selection of distinct filters from {deflate(level 1-9), shuffle(elem 1,2,4,8,16), fletcher32, lzf} (64 orderings × seeded parameters) × 18-20 payload sizes (0 B..4 KiB, thorough up to 1 MiB; 2 MiB of zeros for compressing pipelines, thorough also 8 MiB) × 5 payload kinds plus periodic payloads (a random block repeated at periods 1,2,3,8,31-33,255-257,263-265,8191-8194 and, thorough, 32767-32769: back references at the compressors' length and window limits): Apply/Remove identity, pipeline message encode/parse identity, reader (core.ApplyFilters on a description built from the filters' ids/client data) decodes the writer's bytes; " +
-		"for pipelines ending in fletcher32 every byte position (<=512 B) or 200 sampled positions of the stored chunk is altered by a bit flip and both decoders must report an error. End to end: chunked filtered datasets through the public API in all accepted option combinations × superblock 0/2/3, reopened and read. " +
+	Rule: "package level: every ordered selection of distinct filters from {deflate(level 1-9), shuffle(elem 1,2,4,8,16), fletcher32, lzf} (64 orderings × seeded parameters) × 18-20 payload sizes (0 B..4 KiB, thorough up to 1 MiB; 2 MiB of zeros for compressing pipelines, thorough also 8 MiB) × 5 payload kinds plus periodic payloads (a random block repeated at periods 1,2,3,8,31-33,255-257,263-265,8191-8194 and, thorough, 32767-32769: back references at the compressors' length and window limits): Apply/Remove identity, pipeline message encode/parse identity, reader (core.ApplyFilters on a description built from the filters' ids/client data) decodes the writer's bytes; every payload is followed through the same filter objects by up to four near-copies of the same length (same Adler-32, same Fletcher-32, identical, one byte changed) that must each decode to themselves; " +
+		"for pipelines ending in fletcher32 every byte position (<=512 B) or 200 sampled positions of the stored chunk is altered by a bit flip and both decoders must report an error. End to end: chunked filtered datasets through the public API in all accepted option combinations × superblock 0/2/3 (a third with consecutive chunks that are such near-copies of each other), reopened and read. " +
 		"distinct = distinct (pipeline with parameters) or e2e configuration descriptors; all are non-trivial.",
 	Assumptions: []string{
 		"a flip between the 16-bit words 0x0000 and 0xFFFF is invisible to any Fletcher-32 (equal mod 65535) and is not counted",
